@@ -20,7 +20,7 @@ RULE = (
     "out-of-range values, dump file) around a small input tree with private and public addresses, secrets, words and "
     "numbers; every option independently placed on the command line, in a config file (key=value / key: value / bare "
     "flag), in both with the same value, or in both with conflicting values. Oracles: contradictory vectors (undo without "
-    "salt, undo+anonymize, dump without -a, host bits outside 0..32, missing or empty -i/-o) raise ValueError or exit != 0 "
+    "salt, undo+anonymize, dump without -a, host bits outside 0..32, missing or empty -i / -o) raise ValueError or exit != 0 "
     "and leave the scratch area byte-for-byte unchanged; no anonymization option => returns, nothing written; all "
     "placements of the same settings give identical output trees and a conflict resolves to the command-line value; "
     "omitted defaults == explicit defaults (8 host bits, the seven class/private prefixes); --preserve-private-addresses == "
@@ -146,7 +146,9 @@ def _setup(d):
 def check_vector(case, ev):
     settings, placement, kind = case["settings"], case["placement"], case["kind"]
     d = tempfile.mkdtemp(prefix="vf-c19-")
+    cwd = os.getcwd()
     try:
+        os.chdir(d)  # anything written relative to the working directory lands in the scratch area
         _setup(d)
         ncfg = sum(1 for k, w in placement.items() if settings.get(k) not in (None, False) and w in ("cfg", "both", "conflict"))
         ncli = sum(1 for k in OPTS if settings.get(k) not in (None, False) and placement.get(k, "cli") in ("cli", "both", "conflict"))
@@ -159,6 +161,8 @@ def check_vector(case, ev):
                 argv = [a for i, a in enumerate(argv) if not (a == "-o" or (i and argv[i - 1] == "-o"))]
             elif kind == "reject:empty-input":
                 argv[argv.index("-i") + 1] = ""
+            elif kind == "reject:empty-output":
+                argv[argv.index("-o") + 1] = ""
             before = _snapshot(d)
             status, info = _run_main(argv)
             after = _snapshot(d)
@@ -231,6 +235,7 @@ def check_vector(case, ev):
                 k = next((k for k in oute if outb.get(k) != oute[k]), "?")
                 return Finding("private/flag-differs-from-listing-rfc1918", "settings %r: file %s with the flag %r, with the explicit list %r" % (settings, k, (outb.get(k) or b"")[:300], (oute.get(k) or b"")[:300]), case)
     finally:
+        os.chdir(cwd)
         shutil.rmtree(d, ignore_errors=True)
     return None
 
@@ -249,7 +254,7 @@ _prefix_choices = ["10.0.0.0/8", "12.0.0.0/6", "0.0.0.0/1", "128.0.0.0/1", "172.
 
 @st.composite
 def _case(draw):
-    kind = draw(st.sampled_from(["valid"] * 6 + ["none", "reject:undo-without-salt", "reject:undo-and-anonymize", "reject:dump-without-a", "reject:hostbits", "reject:no-input", "reject:no-output", "reject:empty-input"]))
+    kind = draw(st.sampled_from(["valid"] * 6 + ["none", "reject:undo-without-salt", "reject:undo-and-anonymize", "reject:dump-without-a", "reject:hostbits", "reject:no-input", "reject:no-output", "reject:empty-input", "reject:empty-output"]))
     s = {
         "salt": draw(_salts),
         "anon": draw(st.booleans()),
